@@ -50,9 +50,10 @@ Assign(r, todo, used) ==
              cands == {i \in PinsOf(r, e.s, e.c) : r.pins[i].p = RoutePt(r, pe) /\ ~(r.pins[i].excl /\ i \in used)}
          IN  \E i \in cands : Assign(r, todo \ {pe}, IF r.pins[i].excl THEN used \cup {i} ELSE used)
 \* demand does not exceed what the pins of a class can serve (otherwise "a free pin exists" fails for somebody)
-Servable(r) == \A pe \in PinEnds(r) : LET e == EndRec(r, pe) IN
+ServableEnd(r, pe) == LET e == EndRec(r, pe) IN
                    \/ \E i \in PinsOf(r, e.s, e.c) : ~r.pins[i].excl
                    \/ Cardinality({q \in PinEnds(r) : EndRec(r, q).s = e.s /\ EndRec(r, q).c = e.c}) <= Cardinality(PinsOf(r, e.s, e.c))
+Servable(r) == \A pe \in PinEnds(r) : ServableEnd(r, pe)
 DirFlag(a, b) == IF b[2] < a[2] THEN 1 ELSE IF b[2] > a[2] THEN 2 ELSE IF b[1] < a[1] THEN 4 ELSE IF b[1] > a[1] THEN 8 ELSE 0
 HasFlag(mask, f) == f # 0 /\ (mask \div f) % 2 = 1
 RECURSIVE Dedup(_)
@@ -81,6 +82,9 @@ Tags(r) ==
                                                                    a == IF pe[2] = 1 THEN rt[1] ELSE rt[Len(rt)]
                                                                    b == IF pe[2] = 1 THEN rt[2] ELSE rt[Len(rt) - 1]
                                                                IN  Len(rt) >= 2 /\ HasShape(r, e.s) /\
+                                                                   \* ("provided a free pin exists": when more ends ask for an exclusive class than it has pins,
+                                                                   \*  the one left over is drawn as a straight line from a pin that is not its own)
+                                                                   ServableEnd(r, pe) /\
                                                                    \* the end does sit on a pin of its class (not on the fallback when no free pin exists) and
                                                                    \* none of the pins of that class at that point allows the direction taken
                                                                    (\E i \in PinsOf(r, e.s, e.c) : r.pins[i].p = a) /\
